@@ -77,7 +77,7 @@ that the re-issued token is read-write (hypotheses of the theorem hold) while th
 token is read-only; one nanosecond later the window has closed. -/
 def exWindow : World :=
   run (World.init 2000000000500000000)
-    [.auth .password false false ⟨86400, 600⟩, .advance 10000000000,
+    [.auth .password false false true ⟨86400, 600⟩, .advance 10000000000,
      .reauth 0 .grantReadWrite .password ⟨86400, 600⟩, .advance 599499999999]
 
 example :
@@ -133,9 +133,9 @@ theorem constant_scopes_readonly :
 /-- Non-vacuity: privileged anonymous and OAuth2-trust logins, each followed by a re-auth attempt. -/
 def exListed : World :=
   run (World.init 2000000000000000000)
-    [.auth .anonymous true true ⟨86400, 600⟩, .advance 5,
+    [.auth .anonymous true true true ⟨86400, 600⟩, .advance 5,
      .reauth 0 .grantReadWrite .password ⟨86400, 600⟩,
-     .auth .oAuth2Trust true false ⟨86400, 600⟩,
+     .auth .oAuth2Trust true false true ⟨86400, 600⟩,
      .reauth 1 .grantReadWrite .password ⟨86400, 600⟩]
 
 example :
@@ -185,7 +185,7 @@ theorem ordinary_login_token_readonly (sid : Nat) (anon : Bool) (ct : Nat) (pol 
 
 example :
     (step (run (World.init 2000000000000000000)
-            [.auth .passwordTotp false false ⟨86400, 600⟩, .advance 86399000000000]) (.use 0)).2
+            [.auth .passwordTotp false false true ⟨86400, 600⟩, .advance 86399000000000]) (.use 0)).2
       = .scope .readOnly := by
   decide
 
@@ -222,13 +222,25 @@ a day: the re-issued token still expires at login + 1000 s, is read-write one na
 that instant and refused one nanosecond after it. -/
 def exExpiry : World :=
   run (World.init 2000000000000000000)
-    [.auth .password false false ⟨1000, 600⟩, .advance 900000000000,
+    [.auth .password false false true ⟨1000, 600⟩, .advance 900000000000,
      .reauth 0 .grantReadWrite .password ⟨86400, 3600⟩, .advance 99999999999]
 
 example :
     exExpiry.tokens.map (·.expiry) = [some 2000001000000000000, some 2000001000000000000] ∧
     (step exExpiry (.use 1)).2 = .scope .readWrite ∧
     (step (step exExpiry (.advance 2)).1 (.use 1)).2 = .err .sessionExpired := by
+  decide +kernel
+
+/-- Non-vacuity of the `persist = false` histories: a privileged login whose session record is
+lost is read-write inside the grace window and refused after it; it cannot re-authenticate. -/
+def exLost : World :=
+  run (World.init 2000000000000000000)
+    [.auth .password true false false ⟨86400, 600⟩, .advance 299999999999]
+
+example :
+    (step exLost (.use 0)).2 = .scope .readWrite ∧
+    (step (step exLost (.advance 1)).1 (.use 0)).2 = .err .sessionExpired ∧
+    (stepReauth exLost 0 .grantReadWrite .password ⟨86400, 600⟩).2 = .err .invalidState := by
   decide +kernel
 
 /-- **Re-authentication needs a live `PrivilegeCapable` session and a privilege-capable
@@ -279,7 +291,7 @@ theorem reauth_requires_privilege_capable (w w' : World) (tok : Nat) (req : Reau
         · simp [hal] at h
 
 def exReauth : World :=
-  run (World.init 2000000000000000000) [.auth .passkey false false ⟨86400, 600⟩]
+  run (World.init 2000000000000000000) [.auth .passkey false false true ⟨86400, 600⟩]
 
 example :
     (stepReauth exReauth 0 .grantReadWrite .passkey ⟨86400, 600⟩).2
@@ -289,6 +301,24 @@ example :
     (stepReauth (step exReauth (.revoke 0)).1 0 .grantReadWrite .passkey ⟨86400, 600⟩).2
       = .err .sessionExpired := by
   decide
+
+/-- **No other place hands out write access.**  Every non-test function under `idm/` and in
+`server/identity.rs` that *produces* the value `AccessScope::ReadWrite` or calls
+`project_with_scope`, re-scanned on every run: the UAT mapping (modelled above), the two `From`
+impls (`&ApiTokenPurpose`: modelled; `&UatPurpose`: not called anywhere), the internal identities
+(`migration`, `message_queue`, `from_internal`, `from_impersonate_entry_readwrite` — never built
+from a token), and `account_destroy_session_token`, which projects the caller's identity to
+read-write so that a read-only session can end *itself* (the one deliberate exception, limited
+to removing the caller-named session value). A new site changes this list and fails here. -/
+theorem rw_scope_sites_are_known :
+    rwScopeSites =
+      [("idm/account.rs", "account_destroy_session_token", 2),
+       ("idm/server.rs", "process_uat_to_identity", 1),
+       ("server/identity.rs", "from", 2),
+       ("server/identity.rs", "from_impersonate_entry_readwrite", 1),
+       ("server/identity.rs", "from_internal", 1),
+       ("server/identity.rs", "message_queue", 1),
+       ("server/identity.rs", "migration", 1)] := rfl
 
 /-- **API tokens are read-write exactly when issued so**: the identity scope of an API token is
 `ReadWrite` iff `read_write` was requested at generation, and never `Synchronise`. -/
